@@ -157,4 +157,24 @@ example :
     (c.st.events.map (·.2), c.committed.map (·.2), pending c.threads) = ([⟨0, 9⟩, ⟨0, 5⟩], [⟨0, 5⟩, ⟨0, 9⟩], []) := by
   decide
 
+/-! ### what "announce only the newest" would lose (seeded change C14l) -/
+
+/-- a writer that finds a newer value saved for its property when its turn to announce comes returns without an
+    event -/
+def notifyNewest (c : Conc) (t : Nat) : Conc :=
+  match (c.threads[t]?).join with
+  | some (.saved d v) =>
+    match (c.committed.filter (fun p => p.1 == d.name)).getLast? with
+    | some (_, w) => if w == v then cstep exCfg c (.notify t) else { c with threads := setThread c.threads t none }
+    | none => c
+  | _ => c
+
+/-- two accepted writes to one property whose saves come before their announcements: the first is never announced,
+    although it was validated, stored, readable for a while and acknowledged -/
+theorem newest_only_loses_an_event :
+    let c0 := crun exCfg {} [.begin 0 (.set (.byName 1) ⟨0, 5⟩), .begin 1 (.update 101 9), .save 0, .save 1]
+    let c := notifyNewest (notifyNewest c0 0) 1
+    (c.st.events.map (·.2), c.committed.map (·.2), pending c.threads) = ([⟨0, 9⟩], [⟨0, 5⟩, ⟨0, 9⟩], []) := by
+  decide
+
 end QiVerif.C14
